@@ -22,9 +22,10 @@ def run(ctx, R, tier):
     zero_div(F, R)
     from .c02 import nested_slices
     R.floor('B.C13.slice', nested_slices(F, R, rule='B.C13.slice'), 1)
+    linear(F, R)
     from ..enginea import run_engine_a
     run_engine_a(R, F, groups=('rt',), effects=('panic',), loops=False, rule_prefix='A', fn_filter=lambda fn: 'effect::' in fn,
-                 singular=True, singular_floor=45)
+                 singular=True, singular_floor=32)
 
 
 def mix(F, R):
@@ -202,3 +203,45 @@ def zero_div(F, R):
                     'so the division is 0/0 = NaN on every sample and NaN passes the renderer\'s final clamp' % (im['self_ty'], d[:120]),
                     detail={'divisor': d[:120]}, where=b.where(bb))
     R.floor('B.C13.zero-div', n, 8)
+
+
+LINEAR = ['effect::filter::Filter', 'effect::eq_filter::EqFilter', 'effect::delay::Delay', 'effect::reverb::Reverb',
+          'effect::volume_control::VolumeControl', 'effect::panning_control::PanningControl']
+NONLINEAR = ['effect::distortion::Distortion', 'effect::compressor::Compressor']
+
+
+def linear(F, R):
+    """"The linear effects obey superposition and scaling for fixed parameters": linearity typing (kvlib.lintype) of the
+    per-sample code of filter, EQ filter, delay, reverb (with its comb and all-pass filters), volume and panning control:
+    every value derived from the input is combined only by operations of a linear map (sum, difference, product with a
+    signal-independent coefficient), no branch tests a signal value, nothing signal-independent is mixed into the signal.
+    The two effects that are documented as non-linear (distortion, compressor) must come out non-linear: the analysis is
+    not vacuous."""
+    from ..lintype import Lin, S, NAMES
+    n = 0
+    for e in LINEAR + NONLINEAR:
+        p = '<%s as effect::Effect>::process' % e
+        if not R.check(F.body(p) is not None, 'B.C13.linear', 'anchor:' + e, '%s not found' % p):
+            continue
+        L = Lin(F, [p], {p: [2]})
+        vs = L.violations()
+        sig_ops = len([1 for ed in L.edges if ed[0] in ('mul', 'add', 'div') and any(L.val(x) == S for x in ed[2])])
+        short = e.split('::')[-1]
+        if e in NONLINEAR:
+            R.check(bool(vs), 'B.C13.linear', 'control:' + short, 'the linearity analysis finds no non-linear step in %s (which clips / '
+                    'follows the level of its input): the analysis has gone blind' % short, detail={'nonlinear_sites': len(vs)}, nontrivial=False)
+            continue
+        n += 1
+        R.check(sig_ops >= 1, 'B.C13.linear', short + ':reached', 'no operation on the input signal was found in %s' % short,
+                detail={'signal_operations': sig_ops, 'bodies': sorted(L.bodies)}, nontrivial=False)
+        keyed = {}
+        for bp, bb, what, line in vs:
+            keyed.setdefault((bp, what.split(' is not ')[0].split(' (')[0][:60]), []).append((bb, line, what))
+        if not vs:
+            R.ok('B.C13.linear', short, detail={'signal_operations': sig_ops, 'state_fields': sorted('%s.%s' % k[1:] for k, v in L.cls.items() if k[0] == 'F' and v == S),
+                                                'bodies': sorted(L.bodies)}, where=F.body(p).file)
+        for (bp, w), lst in sorted(keyed.items()):
+            b = F.body(bp)
+            R.bad('B.C13.linear', '%s|%s' % (short, w), '%s is not linear in its input: in %s, %s' % (short, bp, lst[0][2]),
+                  where=b.where(lst[0][0]) if b is not None else None)
+    R.floor('B.C13.linear', n, 6)
